@@ -121,17 +121,74 @@ def gen_mass_expiry(rng, kind, i, batch):
             lines.append("D 1000")
     if kind == "sync":
         lines.append("S")
-    d = max(cfg["ttl"] if cfg["ttl"] != "none" else 0, cfg["tti"] if cfg["tti"] != "none" else 0)
+    ds = [x for x in (cfg["ttl"], cfg["tti"]) if x != "none"]
+    d = rng.choice([max(ds), min(ds)])           # min: only the policy with the earlier deadline has fired
     lines.append(f"D {rng.choice([d, d + 1])}")
-    if rng.random() < 0.5:
+    if rng.random() < 0.3:
         for _ in range(2):
             lines.append(rng.choice([f"G {rng.randrange(n)}", f"C {rng.randrange(n)}", "T", f"I {n + 5} 1", f"X {rng.randrange(n)}"] + (["S"] if kind == "sync" else [])))
     # touch entries in the tail of the LRU / write order: expired, possibly not yet purged
     for _ in range(3):
         k = rng.randrange(max(0, min(per_run, n - 1)), n) if n > per_run else rng.randrange(n)
-        lines += [f"G {k}", f"C {k}", rng.choice(["T", f"G {k}", "D 1"]), f"C {k}"]
+        first = [f"G {k}", f"C {k}"]
+        rng.shuffle(first)                       # either kind of lookup may be the first to meet the unpurged tail
+        if rng.random() < 0.2:
+            first.insert(0, "T")
+        lines += first + [rng.choice(["T", f"G {k}", "D 1"]), f"C {k}"]
     lines.append("T")
     return (f"{kind[0]}{i}_massexp{n}", lines)
+
+
+def gen_excess_case(rng, kind, i):
+    """A weight-growing in-place update leaves the cache over capacity; the clock then moves to (or next to)
+    a deadline of an entry that is NOT at the LRU end, and lookups / observations of every kind follow: the
+    order 'purge expired first, then evict from the LRU end' decides who survives."""
+    cfg = gen_cfg(rng, kind, "expiry")
+    cap = rng.choice([6, 8, 10, 12])
+    cfg["cap"] = cap
+    cfg["weigher"] = "value"
+    d = rng.choice([3 * SEC, 10 * SEC])
+    mode = rng.choice(["ttl", "ttl", "both", "tti", "none"])
+    cfg["ttl"] = d if mode in ("ttl", "both") else "none"
+    cfg["tti"] = rng.choice([d, 2 * d]) if mode in ("tti", "both") else "none"
+    cfg["hasher"] = rng.choice(["id", "id", "mod:3"])
+    lines = [cfg_line(cfg)]
+    S = ["S"] if kind == "sync" else []
+    keys = [1, 2, 3, 4]
+    w = {}
+    lines.append(f"I 1 {rng.choice([1, 2, 3])}")      # the oldest write
+    w[1] = int(lines[-1].split()[2])
+    if rng.random() < 0.7:
+        lines += S
+    a = rng.choice([d // 2, d // 3, d - 1, 1])
+    lines.append(f"D {a}")
+    for k in keys[1:rng.choice([3, 4])]:
+        w[k] = rng.choice([1, 2, 3])
+        lines.append(f"I {k} {w[k]}")
+    if rng.random() < 0.7:
+        lines += S
+    for _ in range(rng.choice([1, 2, 3])):            # reorder: the oldest write becomes recently used
+        lines.append(f"G {rng.choice([1, 1] + list(w))}")
+    if rng.random() < 0.7:
+        lines += S
+    # the growing update: total weight goes beyond the capacity
+    k = rng.choice([x for x in w if x != 1] or [1])
+    tot = sum(w.values())
+    grow = max(1, cap - tot + w[k] + rng.choice([1, 1, 2, 3]))
+    if grow > cap:
+        grow = cap
+    w[k] = grow
+    lines.append(f"I {k} {grow}")
+    if kind == "sync" and rng.random() < 0.3:
+        lines.append("S")
+    # to the write-based deadline of key 1 (exactly, one before, one after), or nowhere
+    lines.append(f"D {rng.choice([d - a, d - a, d - a + 1, max(d - a - 1, 1), 1])}")
+    univ = list(w) + [9]
+    for _ in range(rng.choice([3, 5, 8])):
+        x = rng.choice(univ)
+        lines.append(rng.choice([f"C {x}", f"C {x}", f"G {x}", "T", f"X {x}", f"I {x} {rng.choice([1, 2])}", "D 1"] + S))
+    lines += S + ["T"] + [f"G {x}" for x in sorted(w)] + S + ["T"]
+    return (f"{kind[0]}{i}_excess", lines)
 
 
 def gen_bigsketch(rng, kind, i):
